@@ -190,7 +190,7 @@ ADDED = {
  "C06": ("; the ge25519 group-operation code (point formulas, window recoding, constant-time lookups, the three scalar multiplications, base tables regenerated from the source) modelled and proved over an explicit curve-group hypothesis",
          " The ge25519 code is inside the model: every addition / doubling formula is proved (as a polynomial identity) to compute the RFC 8032 formulas on the represented points, the signed-window and sliding-window recodings are proved as integer identities, the table lookups exact, the three scalar multiplications return n*P / n*B / a*A + b*B over any group the formulas implement, the 264 precomputed base-table entries are kernel-checked against the specification base point; that the RFC formulas form a group on the curve is an explicit hypothesis (a fact about edwards25519, not about libsodium)."),
  "C07": ("; sc25519 limb code re-transcribed from the source every run and proved exact; ge25519 group-operation code as for C06",
-         " The scalar limb code (reduce / mul / muladd / invert) is regenerated from the source on every run and proved exact; the ge25519 point code is modelled and proved as described under C06 (two deviations outside the callers' contract stated as theorems: top window digit out of range for scalars >= 2^255, slide_vartime carry loss above 2^255)."),
+         " The scalar limb code (reduce / mul / muladd / invert) is regenerated from the source on every run and proved exact; the ge25519 point code is modelled and proved as described under C06 (two deviations outside the callers' contract stated as theorems: top window digit out of range for scalars >= 2^255, slide_vartime carry loss above 2^255). The Ristretto255 and Elligator 2 field-level code (sqrt_ratio_m1, frombytes / p3_tobytes, elligator, from_hash, mont_to_ed, from_uniform, the wrappers) is modelled in the C's statement order and proved equal, coordinate-wise and for all inputs, to RFC 9496 / RFC 9380 (Properties/C07Maps.lean, with a Pratt certificate for the primality of 2^255-19)."),
  "C08": ("; the reference Argon2 core proved equal to RFC 9106 end to end (any lane count), the reference scrypt components (Salsa20/8, BlockMix, Integerify, ROMix loops, PBKDF2) proved equal to RFC 7914 / 8018",
          " The driver now runs the C-structured models of the reference cores (Properties/C08Core: fBlaMka .. fill_block .. index_alpha with exact bounds .. fill_segment .. finalize = RFC 9106 for every in-range input; Properties/C08Scrypt for the scrypt components); the vectorised fill / SSE2 scrypt code is compared with them per backend."),
  "C11": ("; MiniC deep embedding + kernel-checked constant-time type checker with a soundness theorem for all programs and inputs; 24 leaf functions re-translated from the clang AST of the current source on every run",
